@@ -747,6 +747,31 @@ fn kf_xls_3d_area_tokens_go_through_extern_sheet() {
     assert_eq!(got[4], "#REF!A1:B2");
 }
 
+#[test]
+fn kf_xlsb_attr_choose_has_a_variable_jump_table() {
+    // CHOOSE(2,10,20): PtgInt 2, PtgAttrChoose cOffset=2 + 3 offsets, PtgInt 10, PtgAttrGoto, PtgInt 20, PtgAttrGoto, PtgFuncVar(3, CHOOSE=100)
+    let rgce: Vec<u8> = vec![
+        0x1E, 2, 0, 0x19, 0x04, 2, 0, 6, 0, 13, 0, 20, 0, 0x1E, 10, 0, 0x19, 0x08, 10, 0, 0x1E, 20, 0, 0x19, 0x08, 3, 0, 0x42, 3, 100, 0,
+    ];
+    let src = fixture("date.xlsb");
+    let mut recs = xlsb_records(&member(&src, "xl/worksheets/sheet1.bin"));
+    let end = recs.iter().position(|r| r.0 == 0x92).unwrap();
+    let mut p = Vec::new();
+    p.extend_from_slice(&3u32.to_le_bytes());
+    p.extend_from_slice(&0u32.to_le_bytes());
+    p.extend_from_slice(&1.0f64.to_le_bytes());
+    p.extend_from_slice(&0u16.to_le_bytes());
+    p.extend_from_slice(&(rgce.len() as u32).to_le_bytes());
+    p.extend_from_slice(&rgce);
+    p.extend_from_slice(&0u32.to_le_bytes());
+    recs.insert(end, (0x0009u16, p));
+    let bytes = rezip(&src, &[("xl/worksheets/sheet1.bin", xlsb_bytes(&recs))]);
+    let mut wb: Xlsb<_> = Xlsb::new(Cursor::new(bytes)).unwrap();
+    let name = wb.sheet_names()[0].clone();
+    let f = wb.worksheet_formula(&name).expect("a CHOOSE with two choices must decode");
+    assert_eq!(f.get_value((2, 3)), Some(&"CHOOSE(2,10,20)".to_string()));
+}
+
 // C10 / R-FMT-SCAN
 
 #[test]
